@@ -432,6 +432,47 @@ def continue_lowering(R, ctx):
     R.meta[rid] = {"programs": n, "oracles_per_program": 2 ** nbits}
 
 
+def tracker_records_locals(R, ctx, rid="C06.tracker"):
+    """The identifier tracker behind the `math` / `string` / `tostring` shadow test records every declared local."""
+    from .. import peval
+    from ..peval import Enum, make, Ref, some, NONE
+    lib = ctx.lib
+    IT = [a for a in lib.adts if a.endswith("scope_visitor::IdentifierTracker")]
+    R.rule(rid, "IdentifierTracker (the scope the lowering rules ask whether `math`, `string`, `tostring` are shadowed), evaluated from its typed "
+                "tree: after insert_local(name, value) the name is reported as used, for value absent, an identifier of the same name "
+                "(`local math = math`, which a later assignment can still redirect), another identifier, and a call; declared in the first scope and in a pushed one")
+    if not R.require(rid, "anchor:tracker", len(IT) == 1, "", "IdentifierTracker: %s" % IT):
+        return
+    T = IT[0]
+    new = lib.fn(T + "::new")
+    used = lib.fn(T + "::is_identifier_used")
+    ins = [f for k, f in lib.fns.items() if k.startswith("<" + T + " as ") and k.endswith("Scope>::insert_local") and thir.body_of(f)]
+    push = [f for k, f in lib.fns.items() if k.startswith("<" + T + " as ") and k.endswith("Scope>::push") and thir.body_of(f)]
+    if not R.require(rid, "anchor:methods", new is not None and used is not None and len(ins) == 1 and len(push) == 1, "", "new / is_identifier_used / Scope::insert_local / Scope::push"):
+        return
+    ident = lambda n: Enum(EXPR, "Identifier", {"0": make(lib, "nodes::identifier::Identifier", {"name": n})})
+    values = {"none": lambda n: NONE, "same-name": lambda n: some(ident(n)), "other-name": lambda n: some(ident("other")),
+              "call": lambda n: some(Enum(EXPR, "Call", {"0": peval.UNKNOWN}))}
+    n = 0
+    for name in ("math", "string", "tostring", "x"):
+        for label, build in values.items():
+            for pushed in (False, True):
+                pe = peval.PEval(lib, ctx.an)
+                try:
+                    t = pe.call_fn(new, [])
+                    if pushed:
+                        pe.call_fn(push[0], [t])
+                    cell = {"v": name}
+                    pe.call_fn(ins[0], [t, Ref(cell, "v"), build(name)])
+                    r = pe.call_fn(used, [t, name])
+                except peval.OutOfFuel:
+                    r = None
+                n += 1
+                R.ob(rid, "insert_local|%s|%s|%s" % (name, label, "pushed" if pushed else "first-scope"), r is True, ctx.where(ins[0]),
+                     "recorded" if r is True else "`local %s = <%s>` is not recorded: %s %s" % (name, label, r, pe.unknown_reasons[:1]), nontrivial=r is not True)
+    R.require(rid, "floor", n >= 32, "", "%d declarations" % n)
+
+
 def format_specifier(R, ctx, rid="C06.tostring", rid_removed=None):
     """remove_interpolated_string's process_expression as a transfer function on abstract interpolated strings."""
     import itertools
@@ -717,6 +758,7 @@ def run(R, ctx):
     fresh(R, ctx)
     repeat_scope(R, ctx)
     continue_lowering(R, ctx)
+    tracker_records_locals(R, ctx)
     format_specifier(R, ctx)
     sticky_capture_flags(R, ctx)
     branch_order(R, ctx)
